@@ -169,6 +169,22 @@ def push_yield_rule(run, f, rid):
         du = DefUse(b)
         uo = find_calls(b, callee_is("std::option::Option::unwrap_or", "std::option::Option::unwrap_or_default"))
         ok = len(uo) == 1 and (len(uo[0][1]["args"]) == 1 or uo[0][1]["args"][1].get("v") == dflt)
+        if not ok and not uo:
+            # the default spelled as a test of the popped Option (`matches!(popped, Some(Requested))`, `if let Some(t) = ..`):
+            # on every path of the unit that found the queue empty (None) the value returned is the constant default
+            from analysis.table import value_on_path
+            ub = unit(run, rid, f, fn)
+            n_none = 0
+            ok = ub is not None
+            for (pth, conds, sv) in (PathWalker(ub).walk(0, lambda bid, t: ("return",) if t["k"] == "return" else None) if ub is not None else []):
+                if sv[0] != "return":
+                    continue
+                if any(cd[0] == "variant" and cd[2] and set(cd[2]) == {"None"} for cd in conds):
+                    n_none += 1
+                    v = value_on_path(ub, pth)
+                    if not (v and v[0] == "const" and str(v[1]) in (dflt, "false")):
+                        ok = False
+            ok = ok and n_none > 0
         if ok:
             run.ok(rid, fn + "/default", "empty queue -> %s" % ("0" if "timestamp" in fn else "false"))
         else:
